@@ -16,7 +16,34 @@ def codes(n):
     return base[:n]
 
 
-def model(nstn, soln, vel, blockdiag=False):
+ORDERS = ['station', 'posvel', 'velfirst', 'pairs', 'reversed']
+
+
+def order_perm(nstn, vel, order):
+    """positions (in the station-major list STAX STAY STAZ [VELX VELY VELZ] per station) in the order they are written:
+    station  : station by station, positions then velocities          (the usual layout)
+    posvel   : all positions station by station, then all velocities
+    velfirst : station by station, velocities before positions
+    pairs    : station by station, STAX VELX STAY VELY STAZ VELZ
+    reversed : stations in reverse order"""
+    per = 6 if vel else 3
+    base = [[per * i + k for k in range(per)] for i in range(nstn)]
+    if order == 'station':
+        return [j for b in base for j in b]
+    if order == 'reversed':
+        return [j for b in reversed(base) for j in b]
+    if not vel:
+        return [j for b in base for j in b]
+    if order == 'posvel':
+        return [j for b in base for j in b[:3]] + [j for b in base for j in b[3:]]
+    if order == 'velfirst':
+        return [j for b in base for j in b[3:] + b[:3]]
+    if order == 'pairs':
+        return [j for b in base for j in (b[0], b[3], b[1], b[4], b[2], b[5])]
+    raise ValueError(order)
+
+
+def model(nstn, soln, vel, blockdiag=False, order='station'):
     st = [(c, soln) for c in codes(nstn)]
     npar = nstn * (6 if vel else 3)
     est, sd = [], []
@@ -43,7 +70,16 @@ def model(nstn, soln, vel, blockdiag=False):
     est = [float('%21.14e' % v) for v in est]
     sd = [float('%11.5e' % v) for v in sd]
     heights = [100.5 + 37.5 * i for i in range(nstn)]
-    return {'stations': st, 'vel': vel, 'est': est, 'sd': sd, 'Q': Q, 'heights': heights}
+    m = {'stations': st, 'vel': vel, 'est': est, 'sd': sd, 'Q': Q, 'heights': heights}
+    if order != 'station':
+        perm = order_perm(nstn, vel, order)
+        pl = param_list(m)
+        m['params'] = [pl[j] for j in perm]
+        m['est'] = [est[j] for j in perm]
+        m['sd'] = [sd[j] for j in perm]
+        m['Q'] = Q[np.ix_(perm, perm)]
+        m['order'] = order
+    return m
 
 
 def domes(i):
@@ -64,6 +100,8 @@ def site_lonlat(i):
 
 
 def param_list(m):
+    if 'params' in m:
+        return list(m['params'])
     out = []
     for c, s in m['stations']:
         for t in (TYPES6 if m['vel'] else TYPES3):
